@@ -221,17 +221,19 @@ def main():
         with open(os.path.join(ds, 'data.csv'), 'w') as f:
             f.writelines(lines2)
         rows2 = [ln.rstrip('\n').split(',') for ln in lines2[1:]]
-        runs = [('ranking', 1500), ('ranking', 3000), ('ranking', 1000), ('ranking', 600), ('identify_rare_values', 1500), ('identify_rare_values', 3000)]
+        runs = [('ranking', 1500), ('ranking', 3000), ('ranking', 1000), ('ranking', 600), ('identify_rare_values', 1500), ('identify_rare_values', 3000),
+                # plain feature names (--include_cardinality_in_feature_names False): a naming option, the histogram is still computed
+                ('ranking/plain-names', 1500)]
         if not q:
             runs += [('ranking', 1100), ('identify_rare_values', 1200)]       # consume a prefix only: compared with the recomputation over that prefix
 
         def one(run):
             task, mb = run
-            sub = os.path.join(wd, f'cli_{task}_{mb}')
+            sub = os.path.join(wd, f'cli_{task.replace("/", "_")}_{mb}')
             os.makedirs(sub)
             os.symlink(ds, os.path.join(sub, 'ds'))
-            rc, err = PC.run_cli(dict(task=task, data_path='ds', data_source='csv-raw', minibatch_size=mb, subsampling=1, heuristic='MI-numba-randomized', num_threads=2,
-                                      output_folder='out', rare_value_count_upper_bound=2), sub)
+            rc, err = PC.run_cli(dict(task=task.split('/')[0], data_path='ds', data_source='csv-raw', minibatch_size=mb, subsampling=1, heuristic='MI-numba-randomized', num_threads=2,
+                                      output_folder='out', rare_value_count_upper_bound=2, include_cardinality_in_feature_names='False' if task.endswith('/plain-names') else 'True'), sub)
             return run, rc, err, sub
         with cf.ThreadPoolExecutor(max_workers=6) as ex:
             results = list(ex.map(one, runs))
@@ -262,7 +264,8 @@ def main():
             key = f'cli:task={task} minibatch={mb}'
             consumed = rows2[:(n2 // mb) * mb + ((n2 % mb) if n2 % mb > 1024 else 0)]
             card, rare = exact_stats(consumed, cols2, {'', '{}'}, 2)
-            if task == 'ranking':
+            plain = task.endswith('/plain-names')
+            if task.split('/')[0] == 'ranking':
                 p = os.path.join(sub, 'out', 'pairwise_ranks.tsv')
                 if rc != 0 or not os.path.exists(p):
                     V.violation('cli-failed:' + key, f'exit {rc}: {err[-300:]}', {'task': task, 'mb': mb})
@@ -272,7 +275,7 @@ def main():
                     for a, b, s in list(csv.reader(f, delimiter='\t'))[1:]:
                         names.update([a, b])
                 ann = {}
-                for nm in names:
+                for nm in ([] if plain else names):
                     m = re.match(r'^(.*)-\((\d+); (-?\d+)\)$', nm)
                     if not m:
                         V.violation('annotation-format:' + key, f'feature name {nm!r} is not name-(cardinality; coverage)', {'task': task, 'mb': mb})
@@ -295,7 +298,11 @@ def main():
                         exp = {str(x): sum(1 for n in cnt.values() if n > x) for x in [0, 1, 10, 100, 1000, 10000, 100000]}
                         if vr.get(c) != exp:
                             V.violation(f'value-repetitions:{key} column={c}', f'{vr.get(c)} != exact {exp}', {'task': task, 'mb': mb, 'seed': seed})
-                outs.setdefault('ranking', []).append((mb, len(consumed), ann, vr))
+                if plain:
+                    if not names or any(nm not in cols2 for nm in names):
+                        V.violation('plain-names:' + key, f'feature names {sorted(names)[:5]} are not the plain column names', {'task': task, 'mb': mb})
+                else:
+                    outs.setdefault('ranking', []).append((mb, len(consumed), ann, vr))
             else:
                 p = os.path.join(sub, 'out', 'rare_values.tsv')
                 if not os.path.exists(p):
